@@ -15,6 +15,7 @@ import (
 	"sync"
 	"time"
 
+	"github.com/smart-core-os/sc-api/go/types"
 	"github.com/smart-core-os/sc-golang/internal/verifhook"
 	"github.com/smart-core-os/sc-golang/pkg/resource"
 	"github.com/smart-core-os/sc-golang/verifharness/lib"
@@ -23,7 +24,7 @@ import (
 
 const (
 	tiePipe     = "forwarder-pipeline"
-	tiePipeRule = "K4-style: one real subscription (Value.Pull / Collection.Pull / Collection.PullID; backpressure on/off; updates-only on/off) driven by random macro moves {write (Set / Update of a fresh id / Update x / Delete x, each in its own goroutine), one consumer receive, cancel}; after every move the harness waits until every goroutine inside pkg/resource + internal/minibus and every writer is blocked (wait reason from runtime.Stack) and reports G = number of live goroutines of the subscription (counted by package path, not by name), per writer done/blocked, the tags the consumer received, receive pending, close seen; the composed Lean model (bus + excess stage + forwarder + PullID stage, free-running: all interleavings and select choices) must reach a quiescent configuration with exactly this observation. one evaluation = one scenario; non-trivial = it contains a cancel or a Delete x with at least one write; distinct = distinct (shape, op sequence)"
+	tiePipeRule = "K4-style: one real subscription (Value.Pull / Collection.Pull / Collection.PullID; backpressure on/off; updates-only on/off) driven by random macro moves {write (Set / Update or Delete of the watched item, of the writer's own item or of an item an earlier writer touched, incl. re-adding a deleted item; each in its own goroutine; the harness tells the model the change type ADD/UPDATE/REMOVE from its own bookkeeping of which items exist and only issues writes whose outcome is determined), one consumer receive, cancel}, plus burst scenarios (every write before the first receive, so that forwarder and excess stage fill up: mergeChanges incl. ADD+REMOVE annihilation and REMOVE+ADD = REPLACE); after every move the harness waits until every goroutine inside pkg/resource + internal/minibus and every writer is blocked (wait reason from runtime.Stack) and reports G = number of live goroutines of the subscription (counted by package path, not by name), per writer done/blocked, the tags the consumer received (a Collection.Pull consumer also the change types a/u/r/p), receive pending, close seen; the composed Lean model (bus + excess stage + forwarder + PullID stage, free-running: all interleavings and select choices) must reach a quiescent configuration with exactly this observation. one evaluation = one scenario; non-trivial = it contains a cancel or a Delete with at least one write; distinct = distinct (shape, op sequence)"
 )
 
 type PipeCase struct {
@@ -38,6 +39,9 @@ type PipeCase struct {
 	// the four spellings of an item (see ids.go). Pre: the context is already cancelled when the subscription is made.
 	Icpt string `json:"icpt,omitempty"`
 	Pre  bool   `json:"pre,omitempty"`
+	// Burst: all the writes first, with nobody receiving, then the receives: the stages fill up (forwarder holding,
+	// writers blocked or - without backpressure - the excess stage merging / dropping), then drain.
+	Burst bool `json:"burst,omitempty"`
 }
 
 func pipeScenarios(f lib.Flags) []Scenario {
@@ -59,12 +63,32 @@ func pipeScenarios(f lib.Flags) []Scenario {
 		pc.Pre = i%7 == 3
 		res = append(res, Scenario{Mode: "pipe", Class: "pipeline/" + pc.Res + "/" + pc.Kind, Res: pc.Res, Pipe: &pc, BoundMs: boundMs(f)})
 	}
+	// bursts: the same shapes (two thirds of them without backpressure), every write before the first receive
+	for i := 0; i < n/4; i++ {
+		w := 2 + r.Intn(3)
+		pc := PipeCase{Seed: r.Int63(), Res: "collection", Kind: "pull", BP: i%3 == 2, UpdatesOnly: (i/3)%2 == 0,
+			Writers: w, Steps: w + 2 + r.Intn(5), Burst: true}
+		switch (i / 6) % 4 {
+		case 2:
+			pc.Kind = "pullid"
+		case 3:
+			pc.Res = "value"
+		}
+		if pc.Res == "collection" && (i/24)%2 == 1 {
+			pc.Icpt = icptNames[(i/48)%len(icptNames)]
+		}
+		res = append(res, Scenario{Mode: "pipe", Class: "pipeline/" + pc.Res + "/" + pc.Kind + "/burst", Res: pc.Res, Pipe: &pc, BoundMs: boundMs(f)})
+	}
 	return res
 }
 
 type pipeWriter struct {
 	gid  int64
 	done bool
+	// key: the stored id of the item the write is about; isDelete: it is a Collection.Delete (which publishes while
+	// holding the collection's lock: until it is done every later write waits for the lock, uncommitted)
+	key      string
+	isDelete bool
 }
 
 func runPipe(sc Scenario, drv *lib.Driver) (out Outcome) {
@@ -148,7 +172,7 @@ func runPipe(sc Scenario, drv *lib.Driver) (out Outcome) {
 				return "", false
 			}
 			_, q, _ := decode(c.NewValue)
-			return fmt.Sprint(q), true
+			return kindLetter(c.ChangeType) + fmt.Sprint(q), true
 		}
 	}
 	ready := make(chan struct{})
@@ -249,7 +273,8 @@ func runPipe(sc Scenario, drv *lib.Driver) (out Outcome) {
 		micpt = "fold4"
 	}
 	target, _ := idCode(pc.Icpt, items, subID)
-	ans, err := drv.Ask(fmt.Sprintf("pinit %v %v %v %s %d %s %d %v", hasEx, exMerge, hasPid, micpt, target, seeds, pc.Writers, pc.Pre))
+	kinds := value == nil && !hasPid // a Collection.Pull consumer reports the change types it sees
+	ans, err := drv.Ask(fmt.Sprintf("pinit %v %v %v %s %d %s %d %v %v", hasEx, exMerge, hasPid, micpt, target, seeds, pc.Writers, pc.Pre, kinds))
 	if err != nil || !strings.HasPrefix(ans, "ok ") {
 		o.Ties = append(o.Ties, TieRec{Tie: tiePipe, Err: fmt.Sprintf("driver pinit: %v %s", err, ans)})
 		return
@@ -261,7 +286,46 @@ func runPipe(sc Scenario, drv *lib.Driver) (out Outcome) {
 	if !stable || !strings.Contains("|"+strings.TrimPrefix(ans, "ok ")+"|", "|"+obs+"|") {
 		agree, model, code = false, ans+" (initial state)", obs
 	}
-	cancelled, xDeleted, nontrivial := pc.Pre, false, pc.Pre
+	cancelled, nontrivial := pc.Pre, pc.Pre
+	// which items exist (by stored id), as the harness's own bookkeeping of the writes it issued.  It is exact for an
+	// item as long as every write on it was issued when its outcome was determined: Update commits before it publishes
+	// (outside the lock), so a blocked Update has committed; Delete publishes holding the collection's lock, so while
+	// a Delete is blocked the later writes queue on the lock and commit in an order the harness does not control.
+	exists := map[string]bool{}
+	everExisted := map[string]bool{}
+	if value == nil {
+		exists[xCanon], everExisted[xCanon] = true, true
+	}
+	lastTag := map[string]string{} // per stored id: the tag of the last Update issued on it
+	lastTagSeen := func(key string) bool {
+		mu.Lock()
+		defer mu.Unlock()
+		for _, g := range got {
+			if strings.TrimLeft(g, "aurp") == lastTag[key] {
+				return true
+			}
+		}
+		return false
+	}
+	determinate := func(key string) bool {
+		mu.Lock()
+		defer mu.Unlock()
+		lockHeld := false
+		for _, w := range writers {
+			if w.isDelete && !w.done {
+				lockHeld = true
+			}
+		}
+		if !lockHeld {
+			return true
+		}
+		for _, w := range writers {
+			if w.key == key && !w.done {
+				return false
+			}
+		}
+		return true
+	}
 	for i := 0; i < pc.Steps && agree; i++ {
 		var cands []string
 		if len(writers) < pc.Writers {
@@ -274,6 +338,18 @@ func runPipe(sc Scenario, drv *lib.Driver) (out Outcome) {
 		mu.Unlock()
 		if !cancelled {
 			cands = append(cands, "cancel")
+		}
+		if pc.Burst {
+			burst := cands[:0:0]
+			for _, c := range cands {
+				if (c == "write") == (len(writers) < pc.Writers) && c != "cancel" {
+					burst = append(burst, c)
+				}
+			}
+			if len(burst) == 0 && !cancelled {
+				burst = append(burst, "cancel")
+			}
+			cands = burst
 		}
 		if len(cands) == 0 {
 			break
@@ -296,36 +372,76 @@ func runPipe(sc Scenario, drv *lib.Driver) (out Outcome) {
 			tag := t + 1
 			w := &pipeWriter{}
 			var do func()
-			// the id as this writer spells it: some spelling of the watched item or of the writer's own item.
-			// The model gets the spelled id (as a code) and applies its interceptor itself.
-			xid := xCanon
-			if value == nil && (pc.Icpt != "" || r.Intn(3) == 0) {
-				xid = spellings4(pc.Icpt, "xa")[r.Intn(4)]
-			}
-			isX := canon(pc.Icpt, xid) == xCanon // else (no interceptor) another item that merely looks similar
-			xcode, _ := idCode(pc.Icpt, items, xid)
+			// the id as this writer spells it: some spelling of the watched item, of the writer's own item or of an
+			// item an earlier writer touched.  The model gets the spelled id (as a code) and applies its interceptor
+			// itself; it also gets the change type the write must publish (ADD / UPDATE / REMOVE), which the harness
+			// knows from its own bookkeeping of which items exist — see determinate().
+			var id string
 			switch {
 			case value != nil:
-				op = fmt.Sprintf("write %d 0 false %d", t, tag)
-				do = func() { value.Set(val(t, tag)) }
-			case isX && !xDeleted && r.Intn(3) == 0:
-				op = fmt.Sprintf("write %d %d true 0", t, xcode)
-				xDeleted = true
-				nontrivial = true
-				o.count("pipe:delete-spelling:" + spellingKind(xid, xCanon, subID))
-				do = func() { coll.Delete(xid) }
-			case (!isX || !xDeleted) && r.Intn(2) == 0:
-				op = fmt.Sprintf("write %d %d false %d", t, xcode, tag)
-				do = func() { coll.Update(xid, val(t, tag), resource.WithCreateIfAbsent()) }
-			default:
-				own := spellings4(pc.Icpt, items[t+1])
-				oid := own[0]
+			case t > 0 && r.Intn(3) == 0:
+				// an item an earlier writer touched: delete it (an ADD still queued in the excess stage is annihilated),
+				// or update it (merged into the queued change)
+				other := spellings4(pc.Icpt, items[1+r.Intn(t)])
+				id = other[0]
 				if pc.Icpt != "" {
-					oid = own[r.Intn(4)]
+					id = other[r.Intn(4)]
 				}
-				ocode, _ := idCode(pc.Icpt, items, oid)
-				op = fmt.Sprintf("write %d %d false %d", t, ocode, tag)
-				do = func() { coll.Update(oid, val(t, tag), resource.WithCreateIfAbsent()) }
+			case r.Intn(2) == 0:
+				id = xCanon
+				if pc.Icpt != "" || r.Intn(3) == 0 {
+					id = spellings4(pc.Icpt, "xa")[r.Intn(4)]
+				}
+			}
+			if value == nil && (id == "" || !determinate(canon(pc.Icpt, id))) {
+				// the writer's own item: nobody has touched it yet
+				own := spellings4(pc.Icpt, items[t+1])
+				id = own[0]
+				if pc.Icpt != "" {
+					id = own[r.Intn(4)]
+				}
+			}
+			switch {
+			case value != nil:
+				op = fmt.Sprintf("write %d 0 u %d", t, tag)
+				do = func() { value.Set(val(t, tag)) }
+			default:
+				key := canon(pc.Icpt, id)
+				code, _ := idCode(pc.Icpt, items, id)
+				isX := key == xCanon
+				w.key = key
+				switch {
+				case exists[key] && (r.Intn(3) == 0 || (!isX && r.Intn(2) == 0)):
+					op = fmt.Sprintf("write %d %d r 0", t, code)
+					w.isDelete = true
+					exists[key] = false
+					nontrivial = true
+					if isX {
+						o.count("pipe:delete-spelling:" + spellingKind(id, xCanon, subID))
+					} else {
+						o.count("pipe:delete-other-item")
+						if !pc.BP && !lastTagSeen(key) {
+							// lossy subscription, and the consumer has not received the item's latest change: if that is
+							// still queued in mergeCollectionExcess the REMOVE is merged with it (ADD + REMOVE annihilate)
+							o.count("pipe:delete-other-item/lossy/last-change-not-yet-received")
+						}
+					}
+					do = func() { coll.Delete(id) }
+				case exists[key]:
+					op = fmt.Sprintf("write %d %d u %d", t, code, tag)
+					do = func() { coll.Update(id, val(t, tag), resource.WithCreateIfAbsent()) }
+				default:
+					op = fmt.Sprintf("write %d %d a %d", t, code, tag)
+					if everExisted[key] {
+						o.count("pipe:re-add-after-delete")
+					}
+					exists[key] = true
+					do = func() { coll.Update(id, val(t, tag), resource.WithCreateIfAbsent()) }
+				}
+				everExisted[key] = true
+				if !w.isDelete {
+					lastTag[key] = fmt.Sprint(tag)
+				}
 			}
 			started := make(chan struct{})
 			go func() {
@@ -374,6 +490,9 @@ func runPipe(sc Scenario, drv *lib.Driver) (out Outcome) {
 	if pc.Pre {
 		shape += "/pre-cancelled"
 	}
+	if pc.Burst {
+		shape += "/burst"
+	}
 	o.count("pipe:shape:" + shape)
 	o.Ties = append(o.Ties, TieRec{Tie: tiePipe, Key: shape + ":" + strings.Join(done, "/"), Nontrivial: nontrivial, Model: model, Code: code})
 	// end of scenario: cancel, let the consumer drain, and the property itself: everything is gone
@@ -406,6 +525,20 @@ func runPipe(sc Scenario, drv *lib.Driver) (out Outcome) {
 		}
 	}
 	return out
+}
+
+func kindLetter(t types.ChangeType) string {
+	switch t {
+	case types.ChangeType_ADD:
+		return "a"
+	case types.ChangeType_UPDATE:
+		return "u"
+	case types.ChangeType_REMOVE:
+		return "r"
+	case types.ChangeType_REPLACE:
+		return "p"
+	}
+	return "?"
 }
 
 // spellingKind: how the id given to Delete relates to the stored id and to the id the subscriber used
